@@ -39,6 +39,22 @@ def log_session(binp, d, logf, lines):
     try:
         if pump(rb"https://127\.0\.0\.1:(\d+)/c", 8):
             port = int(re.search(rb"https://127\.0\.0\.1:(\d+)/c", out).group(1))
+            # clients which never get as far as a request: plain HTTP on the TLS port, garbage, a TLS client which rejects the self-signed certificate
+            for junk in (b"GET / HTTP/1.1\r\nHost: h\r\n\r\n", b"\x16\x03\x01\x00\x05hello", b"SSH-2.0-OpenSSH_9.2\r\n"):
+                try:
+                    j = socket.create_connection(("127.0.0.1", port), timeout=3); j.sendall(junk); j.settimeout(0.5)
+                    try:
+                        j.recv(4096)
+                    except (socket.timeout, OSError):
+                        pass
+                    j.close()
+                except OSError:
+                    pass
+            try:
+                ssl.create_default_context().wrap_socket(socket.create_connection(("127.0.0.1", port), timeout=3), server_hostname="localhost").close()
+            except (ssl.SSLError, OSError):
+                pass
+            pump(None, 0.3)
             if lines:
                 ctx = ssl.create_default_context(); ctx.check_hostname = False; ctx.verify_mode = ssl.CERT_NONE
                 c = ctx.wrap_socket(socket.create_connection(("127.0.0.1", port), timeout=5))
@@ -114,7 +130,7 @@ def logfile_stream(run):
                       "runs_on_one_log_file": 2}, "detail": problems})
     run.oblige("log file of the real program: two runs on one -log file, lines of 10 / 2047 / 2048 / 3000 characters entered at the terminal - every line of the file "
                "is a JSON object and every entered line has its exact input record (%d records)" % len(recs), not problems and len(recs) >= 8, json.dumps(problems)[:2000])
-    run.stream("logfile", len(recs), len(recs), "the real binary with -log under a pty, twice on the same log file; a real TLS /io shell; operator lines of 10, 2047, "
+    run.stream("logfile", len(recs), len(recs), "the real binary with -log under a pty, twice on the same log file; clients which fail the TLS handshake (plain HTTP, garbage, certificate rejected); a real TLS /io shell; operator lines of 10, 2047, "
                "2048 and 3000 characters typed into the pty", [{"records": len(recs)}])
 
 CLAUSES = {11: "C11 monitor failed: 'Shell I/O' records are not exactly the delivered lines / displayed chunks in order, an accepted stream lacks "
